@@ -538,6 +538,19 @@ def bmat(blocks):
     return SymArr((len(rows), w), [e for r in rows for e in r])
 
 
+def block(blocks):
+    """numpy.block for 2-d blocks: a list of lists is assembled like bmat, a flat list is joined along the last axis"""
+    if isinstance(blocks, (list, tuple)) and blocks and all(isinstance(b, (list, tuple)) for b in blocks):
+        for brow in blocks:
+            for x in brow:
+                if isinstance(x, SymArr) and x.ndim != 2:
+                    raise A.Undecided("np.block with blocks that are not 2-d")
+        return bmat(blocks)
+    if isinstance(blocks, (list, tuple)) and blocks and all(isinstance(b, SymArr) and b.ndim == 2 for b in blocks):
+        return bmat([list(blocks)])
+    raise A.Undecided("form of np.block")
+
+
 def block_diag(*mats):
     ms = [_as2d(m) for m in mats]
     H = sum(m.shape[0] for m in ms)
@@ -716,7 +729,7 @@ def np_summaries():
         "np.multiply.outer": lambda a, b: outer(a, b), "np.atleast_1d": lambda a: SymArr.of(a) if SymArr.of(a).ndim else SymArr.of(a).reshape(1),
         "np.reshape": reshape, "np.array": array, "np.asarray": array, "np.zeros": zeros, "np.ones": lambda s, *a, **k: SymArr.ones(s),
         "np.eye": lambda n, *a, **k: SymArr.eye(n), "np.identity": lambda n: SymArr.eye(n),
-        "np.dot": dot, "np.tensordot": tensordot, "np.einsum": einsum, "np.kron": kron, "np.append": append, "np.bmat": bmat, "np.transpose": lambda a: SymArr.of(a).T,
+        "np.dot": dot, "np.tensordot": tensordot, "np.einsum": einsum, "np.kron": kron, "np.append": append, "np.bmat": bmat, "np.block": block, "np.transpose": lambda a: SymArr.of(a).T,
         "np.ravel": lambda a, order="C": SymArr.of(a).ravel(order), "np.sort": sort, "np.copy": lambda a: SymArr.of(a).copy(),
         "np.add": lambda a, b: SymArr.of(a) + b, "np.sum": lambda a, axis=None: SymArr.of(a).sum(axis),
         "scipy.sparse.kron": kron, "scipy.sparse.eye": lambda n, *a, **k: SymArr.eye(n), "scipy.linalg.block_diag": block_diag,
